@@ -15,10 +15,11 @@ from .tracecheck import validate
 _LINE = re.compile(r'^<<"PAIR", "(.*)">>$')
 
 
-def compare(pairs: list[dict], d: Path, tag: str) -> tuple[list[dict], int]:
+def _compare_chunk(args):
+    pairs, d, tag = args
     path = d / f"{tag}.json"
     path.write_text(json.dumps(pairs))
-    r = run_tlc("PairTrace", "PairTrace.cfg", d, env={"VERIF_PAIRS": str(path)}, heap="8g")
+    r = run_tlc("PairTrace", "PairTrace.cfg", d / f"meta-{tag}", workers=4, env={"VERIF_PAIRS": str(path)}, heap="6g")
     res = []
     for line in r.out.splitlines():
         m = _LINE.match(line.strip())
@@ -29,6 +30,32 @@ def compare(pairs: list[dict], d: Path, tag: str) -> tuple[list[dict], int]:
     path.unlink()
     res.sort(key=lambda x: x["pid"])
     return res, r.distinct
+
+
+def compare(pairs: list[dict], d: Path, tag: str) -> tuple[list[dict], int]:
+    """PairTrace.tla over all pairs, in chunks of bounded size (TLC parses the JSON once per worker: one file with
+    thousands of pairs does not fit)"""
+    from concurrent.futures import ThreadPoolExecutor
+    chunks, cur, size = [], [], 0
+    for p in pairs:
+        n = len(json.dumps(p))
+        if cur and (size + n > 25_000_000 or len(cur) >= 250):
+            chunks.append(cur)
+            cur, size = [], 0
+        cur.append(p)
+        size += n
+    if cur:
+        chunks.append(cur)
+    with ThreadPoolExecutor(max_workers=3) as ex:
+        parts = list(ex.map(_compare_chunk, [(c, d, f"{tag}{i}") for i, c in enumerate(chunks)]))
+    res, states, base = [], 0, 0
+    for (part, st), c in zip(parts, chunks):
+        for x in part:
+            x["pid"] += base
+        res += part
+        states += st
+        base += len(c)
+    return res, states
 
 
 def main(d: str, seed: str, tier: str) -> None:
@@ -84,8 +111,13 @@ def main(d: str, seed: str, tier: str) -> None:
     res, states = compare(pairs, d, "pairs")
     # every run of the pair corpus is also a trace of HMS
     traced = [r for r in runs if r["events"] and r["spec"].get("look") is None]
-    v = validate(traced, d / "tlc", tag="pairtraces")
-    (d / "tlc" / "pairtraces.json").unlink()
+    from .mod_corpus import CHUNK
+    v = {"results": [], "states": 0}
+    for i in range(0, len(traced), CHUNK):
+        vi = validate(traced[i:i + CHUNK], d / "tlc", tag=f"pairtraces{i // CHUNK}")
+        v["results"] += vi["results"]
+        v["states"] += vi["states"]
+        (d / "tlc" / f"pairtraces{i // CHUNK}.json").unlink()
     stats = {"twin_pairs": len(tw), "repeat_pairs": len(rp), "subprocess_pairs": sum(1 for t in rp if t[2] is not None), "history_pairs": len(hp),
              "twin_with_cma": sum(1 for a, _ in tw if any(l["engine"].startswith("CMA") for l in a["levels"])),
              "twin_with_local": sum(1 for a, _ in tw if any(l["engine"] == "LOCAL" for l in a["levels"])),
